@@ -668,7 +668,7 @@ class TIMachine(FormatMachine):
     # ---- dump with main_variant ---------------------------------------------------------------------
     def do_dump(self, s, target, op):
         mv = op.get("main_variant")
-        target = self.arg(target)
+        target = self.dest(target, op)
         if mv is not None:
             s.obj.dump(target, main_variant=mv)
         else:
